@@ -89,6 +89,20 @@ var c09KeyPool = sync.OnceValue(func() []crypto.PublicKey {
 	return out
 })
 
+// c09NegPool: the opposites of c09KeyPool's keys (identity minus key).
+var c09NegPool = sync.OnceValue(func() []crypto.PublicKey {
+	pool := c09KeyPool()
+	out := make([]crypto.PublicKey, len(pool))
+	for i := range out {
+		neg, err := crypto.RemoveBLSPublicKeys(crypto.IdentityBLSPublicKey(), []crypto.PublicKey{pool[i]})
+		if err != nil {
+			panic(err)
+		}
+		out[i] = neg
+	}
+	return out
+})
+
 // c09ManyKeys returns n distinct BLS public keys (k*g2 for k = 1..n as successive sums: cheap to build,
 // grown on demand, built once per process).
 var (
@@ -580,6 +594,143 @@ func c09Families() []c09family {
 					}
 					if _, err := crypto.VerifyBLSSignatureOneMessage(pks, fx.blsSig, fx.msg, fx.kmac); err != nil {
 						return bad("VerifyBLSSignatureOneMessage", desc, err.Error())
+					}
+					return ""
+				}}
+			}
+		}},
+		// well-formed lists made of identity elements in bulk, for every small size: identity signatures,
+		// identity keys, key pairs that cancel per message (so that every pairing couple of a window holds a
+		// point at infinity), every share the identity
+		{"identity-lists", fixedN(360, 1440), func(r *rand.Rand, i int) c09cmd {
+			m := 1 + (i/9)%40
+			pool, neg := c09KeyPool(), c09NegPool()
+			idSig := append([]byte{0xC0}, make([]byte, 47)...)
+			idPk := crypto.IdentityBLSPublicKey()
+			desc := fmt.Sprintf("identity elements in bulk, size %d, variant %d", m, i%9)
+			switch i % 9 {
+			case 0, 1, 2: // m messages, each under a cancelling key pair (all of them / all but the last / every other one)
+				var pks []crypto.PublicKey
+				var msgs [][]byte
+				var hs []hash.Hasher
+				for j := 0; j < m; j++ {
+					mj := []byte(fmt.Sprintf("m%d", j))
+					cancel := i%9 == 0 || (i%9 == 1 && j < m-1) || (i%9 == 2 && j%2 == 0)
+					if cancel {
+						pks = append(pks, pool[j%len(pool)], neg[j%len(pool)])
+						msgs = append(msgs, mj, mj)
+						hs = append(hs, fx.kmac, fx.kmac)
+					} else {
+						pks = append(pks, pool[j%len(pool)])
+						msgs = append(msgs, mj)
+						hs = append(hs, fx.kmac)
+					}
+				}
+				sig := crypto.Signature(idSig)
+				if i%2 == 1 {
+					sig = fx.blsSig
+				}
+				return c09cmd{"VerifyBLSSignatureManyMessages", desc + " (cancelling key pairs per message)", func() string {
+					if _, err := crypto.VerifyBLSSignatureManyMessages(pks, sig, msgs, hs); err != nil {
+						return bad("VerifyBLSSignatureManyMessages", desc, err.Error())
+					}
+					return ""
+				}}
+			case 3: // m keys, each used for two messages... and its opposite for the same two (per-key grouping)
+				var pks []crypto.PublicKey
+				var msgs [][]byte
+				var hs []hash.Hasher
+				for j := 0; j < m; j++ {
+					for k := 0; k < 3; k++ {
+						pks = append(pks, pool[0], neg[0])
+						mj := []byte(fmt.Sprintf("m%d-%d", j, k))
+						msgs = append(msgs, mj, mj)
+						hs = append(hs, fx.kmac, fx.kmac)
+					}
+				}
+				return c09cmd{"VerifyBLSSignatureManyMessages", desc + " (one key and its opposite on every message)", func() string {
+					if _, err := crypto.VerifyBLSSignatureManyMessages(pks, idSig, msgs, hs); err != nil {
+						return bad("VerifyBLSSignatureManyMessages", desc, err.Error())
+					}
+					return ""
+				}}
+			case 4:
+				pks, sigs := make([]crypto.PublicKey, m), make([]crypto.Signature, m)
+				for j := range pks {
+					pks[j], sigs[j] = pool[j%len(pool)], idSig
+					if j%3 == i%3 {
+						pks[j] = idPk
+					}
+				}
+				return c09cmd{"BatchVerifyBLSSignaturesOneMessage", desc, func() string {
+					if _, err := crypto.BatchVerifyBLSSignaturesOneMessage(pks, sigs, fx.msg, fx.kmac); err != nil {
+						return bad("BatchVerifyBLSSignaturesOneMessage", desc, err.Error())
+					}
+					return ""
+				}}
+			case 5:
+				sigs, pks := make([]crypto.Signature, m), make([]crypto.PublicKey, m)
+				for j := range sigs {
+					sigs[j], pks[j] = idSig, idPk
+				}
+				return c09cmd{"Aggregate(identities)", desc, func() string {
+					if _, err := crypto.AggregateBLSSignatures(sigs); err != nil {
+						return bad("AggregateBLSSignatures", desc, err.Error())
+					}
+					agg, err := crypto.AggregateBLSPublicKeys(pks)
+					if err != nil {
+						return bad("AggregateBLSPublicKeys", desc, err.Error())
+					}
+					if _, err := crypto.RemoveBLSPublicKeys(agg, pks); err != nil {
+						return bad("RemoveBLSPublicKeys", desc, err.Error())
+					}
+					return ""
+				}}
+			case 6: // keys that cancel to the identity under one message
+				var pks []crypto.PublicKey
+				for j := 0; j < m; j++ {
+					pks = append(pks, pool[j%len(pool)], neg[j%len(pool)])
+				}
+				return c09cmd{"VerifyBLSSignatureOneMessage", desc + " (keys cancelling)", func() string {
+					if _, err := crypto.VerifyBLSSignatureOneMessage(pks, idSig, fx.msg, fx.kmac); err != nil {
+						return bad("VerifyBLSSignatureOneMessage", desc, err.Error())
+					}
+					return ""
+				}}
+			default: // every share the identity signature (stateless, stateful)
+				k := max(m, 2)
+				signers := make([]int, k)
+				shares := make([]crypto.Signature, k)
+				for j := range signers {
+					signers[j], shares[j] = (j*3+i)%254, idSig
+				}
+				if i%9 == 7 {
+					return c09cmd{"BLSReconstructThresholdSignature", desc, func() string {
+						if _, err := crypto.BLSReconstructThresholdSignature(254, k-1, shares, signers); err != nil {
+							return bad("BLSReconstructThresholdSignature", desc, err.Error())
+						}
+						return ""
+					}}
+				}
+				return c09cmd{"ThresholdSignatureInspector(sequence)", desc, func() string {
+					pks := make([]crypto.PublicKey, 254)
+					for j := range pks {
+						pks[j] = pool[j%len(pool)]
+						if j%2 == 0 {
+							pks[j] = idPk
+						}
+					}
+					ins, err := crypto.NewBLSThresholdSignatureInspector(idPk, pks, k-1, fx.msg, "thr")
+					if err != nil {
+						return bad("NewBLSThresholdSignatureInspector", desc, err.Error())
+					}
+					for j := range signers {
+						_, _ = ins.TrustedAdd(signers[j], shares[j])
+						_, _, _ = ins.VerifyAndAdd((signers[j]+1)%254, shares[j])
+					}
+					_, err = ins.ThresholdSignature()
+					if !errIn(err, crypto.IsInvalidInputsError, crypto.IsInvalidSignatureError, crypto.IsNotEnoughSharesError) {
+						return bad("ThresholdSignature", desc, err.Error())
 					}
 					return ""
 				}}
